@@ -4,6 +4,7 @@
 mod c09;
 mod c10;
 mod common;
+mod host;
 mod mock;
 
 use common::*;
@@ -21,6 +22,7 @@ fn replay_file(comp: &str, path: &Path, out: &mut Out) {
     match comp {
         "reseq" => c09::replay(&desc, &ops, out),
         "codec" => c10::replay(&desc, &ops, out),
+        "host" => host::replay(&desc, &ops, out),
         _ => panic!("unknown component"),
     }
 }
@@ -108,6 +110,7 @@ fn main() {
     let rule = match comp.as_str() {
         "reseq" => c09::run(&args, &mut out),
         "codec" => c10::run(&args, &mut out),
+        "host" => host::run(&args, &mut out),
         _ => {
             eprintln!("unknown component {}", comp);
             std::process::exit(2)
